@@ -149,7 +149,7 @@ impl PieceType for Pawn {
             let rooks = (board.raw[Piece::Rook] | board.raw[Piece::Queen]) & opp;
             let bishops = (board.raw[Piece::Bishop] | board.raw[Piece::Queen]) & opp;
 
-            if (board.checkers - victim - rooks - bishops).none() {
+            if (dest & mask).any() && (board.checkers - victim - rooks - bishops).none() {
                 for src in BitBoard::from(rank) & files & pieces {
                     let occupied = (combined - BitBoard::from(src) - victim) | dest;
 
